@@ -77,6 +77,10 @@ pub struct ForeignSpec {
     /// to saturation), whatever the number of cells that use it
     #[serde(default)]
     pub saturate: Option<String>,
+    /// `_Validation.Category` cells use the alternate spellings other tools
+    /// write ("Guid", "FormattedSddlText")
+    #[serde(default)]
+    pub alt_category: bool,
 }
 
 fn strip_for_no_validation(c: &ColSpec) -> ColSpec {
@@ -130,7 +134,15 @@ impl ForeignSpec {
                     Val::Int(tw),
                 ]);
                 if self.validation {
-                    validation_rows.push(validation_row(n, c));
+                    let mut vr = validation_row(n, c);
+                    if self.alt_category {
+                        vr[7] = match &vr[7] {
+                            Val::Str(k) if k == "GUID" => Val::Str("Guid".into()),
+                            Val::Str(k) if k == "FormattedSDDLText" => Val::Str("FormattedSddlText".into()),
+                            other => other.clone(),
+                        };
+                    }
+                    validation_rows.push(vr);
                 }
             }
         }
